@@ -73,7 +73,7 @@ where
 
     // If the sequences are not different then we're done
     if common_prefix_len == old_range.len() && (old_range.len() == new_range.len()) {
-        d.equal(0, 0, old_range.len())?;
+        d.equal(old_range.start, new_range.start, old_range.len())?;
         d.finish()?;
         return Ok(());
     }
